@@ -20,7 +20,7 @@ VARIABLE sid       \* which script this behaviour follows
 
 Scripts == ndJsonDeserialize("scripts.ndjson")
 
-svars == <<conf, lru, bk, last, ownLeft, retLeft, foreign, op, hist, sid>>
+svars == <<conf, lru, bk, last, ownLeft, retLeft, foreign, op, hist, pk, sid>>
 
 ScriptInit ==
   /\ sid \in 1..Len(Scripts)
@@ -39,7 +39,7 @@ Do(o) ==
 ScriptNext ==
   /\ Len(hist) < Len(Scripts[sid].ops)
   /\ Do(Scripts[sid].ops[Len(hist) + 1])
-  /\ UNCHANGED <<conf, sid>>
+  /\ UNCHANGED sid
 
 (* INVARIANT: print every complete behaviour of every script *)
 EmitScript ==
